@@ -62,7 +62,11 @@ def scenarios(ctx):
         if rng.random() < 0.25:
             PW.add_decoys(rng, w)
         if rng.random() < 0.4:
-            w["phase_vcf"] = True          # phased VCF as a second phase input: preferred pseudo reads in the family selection
+            w["phase_vcf"] = rng.choice([True, True, 2])   # phased VCF(s) as further phase input: preferred pseudo reads
+            if rng.random() < 0.5:
+                # phased VCFs as the ONLY phase input (two pseudo reads per phase set and file), small caps
+                w["opts"]["vcf_only"] = True
+                w["opts"]["max_coverage"] = rng.choice([1, 2, 3, 4])
         scs.append({"kind": "pipeline", "world": w})
     return scs
 
